@@ -45,6 +45,41 @@ type c20Cfg struct {
 	KeyLen  int    `json:"keylen"`
 	Bad     bool   `json:"bad"`   // DnsRegConf without its required fields: proto.Marshal fails
 	Empty   bool   `json:"empty"` // &pb.ClientConf{}
+	// the public key is KeyGenN bytes of the linear congruential generator that Common/Base.v (lcg_bytes)
+	// and driver/lib.py mirror: a multi-megabyte configuration the Coq model can rebuild from (seed, n)
+	KeyGenSeed uint64 `json:"keygen_seed,omitempty"`
+	KeyGenN    int    `json:"keygen_n,omitempty"`
+}
+
+func c20Lcg(seed uint64, n int) []byte {
+	out := make([]byte, n)
+	x := seed
+	for i := range out {
+		x = (x*1103515245 + 12345) % 2147483648
+		out[i] = byte((x / 65536) % 256)
+	}
+	return out
+}
+
+// where the generated key sits inside the marshalled configuration
+type c20Parts struct {
+	Head string `json:"head"`
+	Tail string `json:"tail"`
+	Seed uint64 `json:"seed"`
+	N    int    `json:"n"`
+}
+
+func c20PartsOf(s c20Cfg) *c20Parts {
+	if s.KeyGenN == 0 {
+		return nil
+	}
+	b, err := proto.Marshal(c20Build(s))
+	key := c20Lcg(s.KeyGenSeed, s.KeyGenN)
+	i := bytes.Index(b, key)
+	if err != nil || i < 0 {
+		return nil
+	}
+	return &c20Parts{Head: hex.EncodeToString(b[:i]), Tail: hex.EncodeToString(b[i+len(key):]), Seed: s.KeyGenSeed, N: s.KeyGenN}
 }
 
 func c20Build(s c20Cfg) *pb.ClientConf {
@@ -66,6 +101,9 @@ func c20Build(s c20Cfg) *pb.ClientConf {
 	for i := range key {
 		key[i] = byte(next())
 	}
+	if s.KeyGenN > 0 {
+		key = c20Lcg(s.KeyGenSeed, s.KeyGenN)
+	}
 	kt := pb.KeyType_AES_GCM_128
 	gen := s.Gen
 	c := &pb.ClientConf{
@@ -80,10 +118,11 @@ func c20Build(s c20Cfg) *pb.ClientConf {
 }
 
 type c20Dig struct {
-	Len int    `json:"len"`
-	Sha string `json:"sha"`
-	Hex string `json:"hex,omitempty"`
-	Has bool   `json:"has"` // false: absent / not marshallable
+	Len  int      `json:"len"`
+	Sha  string   `json:"sha"`
+	Hex  string   `json:"hex,omitempty"`
+	Has  bool     `json:"has"`            // false: absent / not marshallable
+	Samp [][2]int `json:"samp,omitempty"` // large contents: (gap, byte) samples, gap = bytes skipped since the previous sample
 }
 
 func c20Digest(b []byte, has bool) c20Dig {
@@ -94,6 +133,22 @@ func c20Digest(b []byte, has bool) c20Dig {
 	d := c20Dig{Len: len(b), Sha: hex.EncodeToString(h[:8]), Has: true}
 	if len(b) <= c20HexLimit {
 		d.Hex = hex.EncodeToString(b)
+	} else {
+		x := uint64(len(b))*2654435761 + 12345
+		pos := 0
+		for {
+			x = x*6364136223846793005 + 1442695040888963407
+			gap := int((x >> 33) % 1500)
+			if pos+gap >= len(b) {
+				break
+			}
+			d.Samp = append(d.Samp, [2]int{gap, int(b[pos+gap])})
+			pos += gap + 1
+		}
+		// the last byte, when the gap allows
+		if rest := len(b) - pos - 1; rest >= 0 && rest < 4000 {
+			d.Samp = append(d.Samp, [2]int{rest, int(b[len(b)-1])})
+		}
 	}
 	return d
 }
@@ -153,6 +208,7 @@ type c20Res struct {
 	Ls   []c20Ent `json:"ls,omitempty"`
 	Dir  string   `json:"dir,omitempty"`
 	Note string   `json:"note,omitempty"`
+	Parts *c20Parts `json:"parts,omitempty"`
 }
 
 type c20Ent struct {
@@ -273,6 +329,7 @@ func TestVerifC20Child(t *testing.T) {
 		case "digest":
 			d := c20MarshalDig(c20Build(*op.Cfg))
 			r.Want = &d
+			r.Parts = c20PartsOf(*op.Cfg)
 		case "rmdir":
 			err = os.RemoveAll(op.Dir)
 		case "mkdir":
